@@ -467,6 +467,36 @@ int _vnacal_new_add_common(vnacal_new_add_arguments_t vnaa)
     }
 
     /*
+     * The B matrix cannot be larger than the calibration's measurement
+     * matrix (min_b_rows / min_b_columns can exceed it in rectangular
+     * calibrations), and when it is abbreviated, its rows (columns) stand
+     * for the VNA ports of the standard, which must all lie within the
+     * calibration's rows (columns).
+     */
+    if (b_rows > full_m_rows || b_columns > full_m_columns) {
+	_vnacal_error(vcp, VNAERR_USAGE, "%s: %s matrix cannot be larger "
+		"than %d x %d", function,
+		vnaa.vnaa_m_type == 'a' ? "b" : "m",
+		full_m_rows, full_m_columns);
+	goto out;
+    }
+    if (s_port_map != NULL) {
+	for (int s_port_index = 0; s_port_index < s_ports; ++s_port_index) {
+	    int port = s_port_map[s_port_index];
+
+	    if ((b_rows < full_m_rows && port > full_m_rows) ||
+		(b_columns < full_m_columns && port > full_m_columns)) {
+		_vnacal_error(vcp, VNAERR_USAGE, "%s: port %d lies outside "
+			"of the %d x %d calibration matrix: the full %s matrix "
+			"must be given", function, port,
+			full_m_rows, full_m_columns,
+			vnaa.vnaa_m_type == 'a' ? "b" : "m");
+		goto out;
+	    }
+	}
+    }
+
+    /*
      * If an A matrix was given, validate its dimensions.  Normally, it
      * must be square and of the same dimensions as b_column.  In UE14,
      * however, it's a row-vector of 1x1 a matrices.
